@@ -1930,7 +1930,13 @@ class FuncGetEnv(ValueFunc):
         return ["var"]
 
     def execute(self, args, environment, pos):
-        return ValueString(os.environ.get(args.getString("var").value, ""))
+        try:
+            return ValueString(
+                os.environ.get(args.getString("var").value, "")
+            )
+        except ValueError:
+            # a name the host cannot encode is not set
+            return ValueString("")
 
 
 class FuncGetOutputString(ValueFunc):
